@@ -38,7 +38,7 @@ pub fn strategy() -> BoxedStrategy<Case> {
             } else {
                 selection_for(&issue, &ch, SelOpts { allow_null: true })
             };
-            let kb = if issue.holder.is_some() { kb.map(|(aud, nonce)| KbArgs { aud, nonce, key: issue.holder }) } else { None };
+            let kb = if issue.holder.is_some() { kb.map(|(aud, nonce)| KbArgs { default_alg: nonce.chars().count() % 2 == 1, aud, nonce, key: issue.holder }) } else { None };
             let then = then.map(|c| serde_json::Value::Object(selection_for(&issue, &c, SelOpts { allow_null: true })));
             C06Case { issue, selection, kb, arbitrary, then }
         })
